@@ -219,7 +219,7 @@ func (g *gen) step() bool {
 	}
 	isList := func(p path) bool { _, ok := p.val.(*zn.ListV); return ok }
 	isDict := func(p path) bool { _, ok := p.val.(*zn.DictV); return ok }
-	switch g.pick(14, "action") {
+	switch g.pick(15, "action") {
 	case 0, 1: // declare from a literal
 		add(&zn.Let{Names: []string{g.name()}, E: g.literal(3)})
 	case 2, 3: // declare from a variable / element / property (copy)
@@ -375,6 +375,38 @@ func (g *gen) step() bool {
 			show("fresh", v(tv)),
 		}})
 		g.labels["literal-in-loop"] = true
+	case 14: // a literal executed repeatedly and changed in place WITHOUT being bound to a
+		// variable first (argument, result of a method, receiver): still fresh each time
+		iv := g.name()
+		var lit zn.Expr
+		var use zn.Stmt
+		consts := func() []zn.Expr {
+			var out []zn.Expr
+			for i, n := 0, g.pick(3, "nconst"); i < n; i++ {
+				if g.pick(2, "ck") == 0 {
+					out = append(out, num(float64(10*(i+1))))
+				} else {
+					out = append(out, &zn.Str{V: []string{"甲", "乙", "丙"}[i]})
+				}
+			}
+			return out
+		}
+		switch g.pick(4, "unbound") {
+		case 0:
+			lit = &zn.ListLit{Items: consts()}
+			use = show("arg", &zn.Call{Name: "改", Args: []zn.Expr{lit, v(iv)}})
+		case 1:
+			use = show("result", mc(&zn.Call{Name: "新表"}, "后增", v(iv)))
+		case 2:
+			lit = &zn.ListLit{Items: consts()}
+			use = show("receiver", mc(lit, "后增", v(iv)))
+		default:
+			lit = &zn.DictLit{Keys: []string{"a"}, Vals: []zn.Expr{num(1)}}
+			use = show("dict-arg", &zn.Call{Name: "改典", Args: []zn.Expr{lit, v(iv)}})
+		}
+		add(&zn.ForEach{Names: []string{iv}, E: &zn.ListLit{Items: []zn.Expr{num(3), num(4), num(5)}}, Body: []zn.Stmt{use}})
+		g.labels["unbound-literal-mutated-repeatedly"] = true
+		g.deepMutAfterCopy = true
 	}
 	vars2, ok := g.state()
 	if !ok {
@@ -395,6 +427,9 @@ func TestCopySemantics(t *testing.T) {
 				{Name: "表", Init: &zn.ListLit{Items: []zn.Expr{num(1), &zn.ListLit{Items: []zn.Expr{num(2)}}}}},
 				{Name: "典", Init: &zn.DictLit{Keys: []string{"a"}, Vals: []zn.Expr{&zn.ListLit{Items: []zn.Expr{num(3)}}}}},
 			}},
+			&zn.FuncDef{Name: "改", Params: []string{"表", "项"}, Body: []zn.Stmt{&zn.ExprStmt{E: mc(v("表"), "后增", v("项"))}, &zn.Return{E: v("表")}}},
+			&zn.FuncDef{Name: "改典", Params: []string{"典", "项"}, Body: []zn.Stmt{&zn.ExprStmt{E: mc(v("典"), "写入", &zn.Str{V: "k"}, v("项"))}, &zn.Return{E: v("典")}}},
+			&zn.FuncDef{Name: "新表", Body: []zn.Stmt{&zn.Return{E: &zn.ListLit{Items: []zn.Expr{num(7)}}}}},
 			&zn.Let{Names: []string{"V0"}, E: &zn.ListLit{Items: []zn.Expr{num(1), &zn.ListLit{Items: []zn.Expr{num(2), num(3)}}, &zn.DictLit{Keys: []string{"a"}, Vals: []zn.Expr{&zn.ListLit{Items: []zn.Expr{num(4)}}}}}}},
 		}}
 		n := rapid.IntRange(2, 22).Draw(t, "nactions")
